@@ -201,6 +201,9 @@ def run(chk):
     th.xif = dag.sym("xif")
     op.configs.evolution_method = EV["ITERATE_EXACT"]
     op.configs.scvar_method = SVM["EXPONENTIATED"]
+    # two scales are listed in two adjacent flavour patches each (sub-grids may share their boundary): the coupling differs there
+    op.mugrid = [(Fraction(10), 5), (Fraction(2), 3), (Fraction(50), 5), (Fraction(3), 4), (Fraction(3), 3), (Fraction(10), 4)]
+    op.mu2grid = [m * m for m, _ in op.mugrid]
     pe.call("eko.runner.commons.couplings", [th, op])
     chk.need(len(built) == 1, "runner.commons.couplings no longer builds exactly one Couplings object")
     ref_args = built.pop()
@@ -214,7 +217,7 @@ def run(chk):
         chk.decide(okc, "alphas-from-the-solver-couplings", fa.qname, f"build_alphas constructs {len(built)} coupling object(s) with "
                    f"{_show(built[0]) if built else None}; the solver's constructor gives {_show(ref_args)} for the same cards - the alpha_s "
                    f"table must describe the coupling the operators were computed with", where=fa.where, how="sibling comparison by PE")
-        want = [(Fraction(2), 3), (Fraction(3), 4), (Fraction(10), 5), (Fraction(50), 5)]
+        want = [(Fraction(2), 3), (Fraction(3), 3), (Fraction(3), 4), (Fraction(10), 4), (Fraction(10), 5), (Fraction(50), 5)]
         qs = r.get("AlphaS_Qs")
         vals = r.get("AlphaS_Vals")
         okq = qs == [w[0] for w in want]
